@@ -112,7 +112,7 @@ WhyGet(chunk) ==
 Why == IF j < NC /\ ConsMay
        THEN IF C[j + 1].k = "r" THEN WhyGet(C[j + 1].v)
             ELSE IF ~inClosed THEN "closes-early"
-            ELSE IF out # given THEN "closes-with-items-undelivered"
+            ELSE IF out # given THEN "loses-item"
             ELSE "closes-twice"
        ELSE IF i < NP THEN "send-after-close"
        ELSE IF ~HasOp(P, "c") THEN "stalls"
